@@ -274,7 +274,7 @@ def alpha(func: ast.FunctionDef, inline: bool = False) -> str:
                     n.body = [ast.Pass()]
             ast.fix_missing_locations(f)
     mapping = {}
-    args = f.args.posonlyargs + f.args.args + f.args.kwonlyargs
+    args = f.args.posonlyargs + f.args.args + f.args.kwonlyargs + ([f.args.vararg] if f.args.vararg else []) + ([f.args.kwarg] if f.args.kwarg else [])
     k = 0
     for i, a in enumerate(args):
         if i == 0 and a.arg in ("self", "cls"):
